@@ -2,6 +2,7 @@ package checks
 
 import (
 	"fmt"
+	"regexp"
 	"strings"
 
 	"verifharness/fw"
@@ -52,8 +53,8 @@ type c17Content struct {
 
 // c17Op is one step of a history.
 type c17Op struct {
-	// Kind: inplace | rename-over | delete-recreate | k8s-swap | symlink-swap |
-	// sync | gate-arm | gate-wait | gate-release
+	// Kind: inplace | inplace-keep-mtime | rename-over | delete-recreate |
+	// k8s-swap | symlink-swap | sync | gate-arm | gate-wait | gate-release
 	Kind    string `json:"kind"`
 	Content int    `json:"content,omitempty"` // index into Contents (content ops)
 	// Identical: the op rewrites the bytes that are already there.
@@ -74,13 +75,20 @@ type c17Op struct {
 	NewDir bool `json:"new_dir,omitempty"`
 	// AtomicCreate: delete-recreate recreates by renaming a finished file in.
 	AtomicCreate bool `json:"atomic_create,omitempty"`
+	// inplace-keep-mtime: an in-place rewrite with content of the SAME byte
+	// length that then puts the file's previous modification time back
+	// (cp -p, rsync --inplace -t), or - FixedMtime - sets a fixed epoch
+	// mtime after every write (normalised timestamps). Trunc: open with
+	// O_TRUNC and write (cp) instead of overwriting the bytes (pwrite).
+	Trunc      bool `json:"trunc,omitempty"`
+	FixedMtime bool `json:"fixed_mtime,omitempty"`
 	// MidPauseUs: delete-recreate pause between the delete and the recreate.
 	MidPauseUs int `json:"mid_pause_us,omitempty"`
 }
 
 func (o *c17Op) isContentOp() bool {
 	switch o.Kind {
-	case "inplace", "rename-over", "delete-recreate", "k8s-swap", "symlink-swap":
+	case "inplace", "inplace-keep-mtime", "rename-over", "delete-recreate", "k8s-swap", "symlink-swap":
 		return true
 	}
 	return false
@@ -431,6 +439,21 @@ func (g *c17Gen) generalOps(n int) {
 	for i := 0; i < n; i++ {
 		// gate patterns: hold the watcher between its read and its report
 		// (and its watch-set repair) while one or two operations happen.
+		if r.Chance(5) {
+			// the watcher is held after a read of identical bytes (so what it
+			// has recorded describes the file as it is now) while a same-length,
+			// mtime-preserving rewrite happens
+			g.pseudo("gate-arm")
+			g.h.Ops = append(g.h.Ops, c17Op{Kind: "inplace", Content: g.cur, Identical: true, PauseUs: g.pause(),
+				Chunks: []int{len(g.h.Contents[g.cur].Bytes)}, ChunkPausesUs: []int{0}})
+			g.pseudo("gate-wait")
+			g.keepMtimeOp(false)
+			g.pseudo("gate-release")
+			if r.Chance(40) {
+				g.pseudo("sync")
+			}
+			continue
+		}
 		if r.Chance(22) {
 			g.pseudo("gate-arm")
 			g.oneOp()
@@ -449,9 +472,59 @@ func (g *c17Gen) generalOps(n int) {
 	}
 }
 
+var c17AlphaRe = regexp.MustCompile(`alpha"?:\s*(\d+)`)
+
+// sameLenContent derives from the current (valid, alpha-carrying) content a
+// new content of exactly the same byte length with a different, unique alpha
+// (alpha = 1000+id keeps four digits). ok=false when the current content has
+// no alpha to replace.
+func (g *c17Gen) sameLenContent() (int, bool) {
+	cur := g.h.Contents[g.cur]
+	if cur.Kind != "valid" || !cur.Fresh {
+		return 0, false
+	}
+	loc := c17AlphaRe.FindSubmatchIndex(cur.Bytes)
+	if loc == nil {
+		return 0, false
+	}
+	repl := fmt.Sprintf("%d", 1000+g.nextID)
+	if len(repl) != loc[3]-loc[2] {
+		return 0, false
+	}
+	b := append([]byte{}, cur.Bytes[:loc[2]]...)
+	b = append(b, repl...)
+	b = append(b, cur.Bytes[loc[3]:]...)
+	return g.addContent("valid", b, true), true
+}
+
+// keepMtimeOp appends an in-place, same-length, mtime-preserving rewrite
+// (falls back to an ordinary fresh step when the current content cannot be
+// varied at constant length).
+func (g *c17Gen) keepMtimeOp(fixed bool) {
+	ci, ok := g.sameLenContent()
+	if !ok {
+		g.contentOp("fresh", false)
+		return
+	}
+	g.h.Ops = append(g.h.Ops, c17Op{Kind: "inplace-keep-mtime", Content: ci, PauseUs: g.pause(), Trunc: g.r.Bool(), FixedMtime: fixed})
+	g.cur = ci
+	g.lastValid = ci
+}
+
 func (g *c17Gen) oneOp() {
 	r := g.r
 	x := r.Intn(100)
+	if r.Chance(9) {
+		// mtime-preserving writers; the fixed-epoch variant needs the epoch
+		// to be the recorded mtime already, so it comes in pairs
+		if r.Chance(35) {
+			g.keepMtimeOp(true)
+			g.keepMtimeOp(true)
+		} else {
+			g.keepMtimeOp(false)
+		}
+		return
+	}
 	switch {
 	case x < 54:
 		g.contentOp("fresh", false)
@@ -581,6 +654,12 @@ func (h *c17Hist) signature() string {
 			}
 			if o.AtomicCreate {
 				sb.WriteString("^")
+			}
+			if o.Trunc {
+				sb.WriteString("t")
+			}
+			if o.FixedMtime {
+				sb.WriteString("e")
 			}
 			if o.RemoveOld {
 				sb.WriteString("-")
